@@ -463,9 +463,29 @@ theorem set_exat_deadline (s : MState) (now : Int) (k value : Bytes) (keep : Boo
 theorem getSet_clears (s : MState) (now : Int) (k value : Bytes) (m : Meta) (old : DsStr.S)
     (h : LiveWith s now k m (Api.strVal old)) (hs : AList.Sorted s.index) :
     (Api.getSet s now k value).2 = .bytes old ∧ Api.expOf (Api.getSet s now k value).1 k = 0 := by
-  rw [getSet_eq]
-  have := writeCmd_liveWith h hs (some (.str [])) .unit (actOn strOf (getSetA k value))
+  obtain ⟨a, _⟩ := Proofs.C10.writeKey_liveWith h hs none
+  rw [getSet_eq, a]
+  simp only [Bool.not_true, Bool.false_eq_true, if_false]
+  have := writeCmd_liveWith h hs none .unit (actOn strOf (getSetA k value))
   cases old <;> exact this
+
+/-- GETSET on a key with no visible record (absent or expired): reply nil, the key is created with the
+    value and without deadline -/
+theorem getSet_new (s : MState) (now : Int) (k value : Bytes)
+    (h : live s now k = none) (hs : AList.Sorted s.index) :
+    (Api.getSet s now k value).2 = .bytes none ∧ Api.expOf (Api.getSet s now k value).1 k = 0 := by
+  have a := writeKey_absent h hs
+  rw [getSet_eq, a]
+  simp only [Bool.not_false, if_true]
+  refine ⟨rfl, ?_⟩
+  unfold getSetNew
+  simp only
+  rw [expOf_emit, expOf_signal]
+  apply expOf_setExp
+  apply present_setVal
+  obtain ⟨r, hr, _⟩ := hot_newKeyWith now (writeKey s now k none).1 k none (.str [])
+  obtain ⟨m, hm, _, _⟩ := vis_some_getMeta hr
+  rw [hm]; rfl
 
 /-- PERSIST: reply 1 iff there was a deadline; afterwards there is none -/
 theorem persist_clears (s : MState) (now : Int) (k : Bytes) (m : Meta) (v : Val)
